@@ -134,7 +134,11 @@ class TreeTranslator:
         if _callee(call) != "set_shape_memo" or call.keywords:
             return False
         if len(call.args) == 1 and isinstance(call.args[0], ast.Starred) and isinstance(call.args[0].value, ast.Name):
-            return len(set(self.tuple_of.get(call.args[0].value.id, []))) == 4
+            srcs = self.tuple_of.get(call.args[0].value.id, [])
+            # each copy goes back into the slot it was read from (all four are dicts: a swap is silent)
+            in_order = srcs == ["memo0", "memo1", "memo2", "memo3"] or (len(self.unpacked) == 4 and srcs == self.unpacked) \
+                or any(srcs == [f"{w}[{i}]" for i in range(4)] for w in self.whole)
+            return len(set(srcs)) == 4 and in_order
         if len(call.args) == 4 and all(isinstance(a, ast.Name) and a.id in self.copy_of for a in call.args):
             srcs = [self.copy_of[a.id] for a in call.args]
             # in the order single, variadic, pytree, arguments
